@@ -94,6 +94,7 @@ EXPLANATION += ' R06.15 the dimension arguments handed to the LAPACK surface sol
 
 EXPLANATION += ' R06.15 the dimension arguments of the LAPACK solve describe the surface matrix as it was filled (no read of unwritten stack memory).'
 
+EXPLANATION += ' R06.10 also: a typed integer variable used as an offset inside a subscript is at least as wide as the integers it is computed from (a narrower one addresses another element once the value exceeds its range).'
 def run(chk):
     repo = Repo(chk.repo)
     ms = repo.by_path('TidalPy/RadialSolver/solver.pyx')
